@@ -690,7 +690,7 @@ def build_cases(tier, seed):
     for fam in (fam_placement, fam_xdg, fam_config_path, fam_overrides, fam_editorconfig, fam_memo, fam_dotdot, fam_ec_vs_override):
         pinned += fam(tier)
     rng = clilib.Rng(seed)
-    n = 150 if tier == "quick" else 3000
+    n = 150 if tier == "quick" else 8000
     seeded = [seeded_case(rng, i) for i in range(n)]
     return pinned, seeded
 
